@@ -1480,10 +1480,10 @@ public:
             ctx_.enqueue(this, strptr_.flip(bkt[i], bktsize), depth_);
         }
 
-        this->substep_notify_done(); // release anonymous subjob handle
-
         if (!strptr_.with_lcp)
             bkt_[0].destroy();
+
+        this->substep_notify_done(); // release anonymous subjob handle
     }
 
     /*------------------------------------------------------------------------*/
